@@ -17,6 +17,7 @@ both; value bytes, type and error code must agree.  Independent of that differen
 """
 import random
 import time
+from fractions import Fraction
 
 from ..models import rnum
 from ..models import c18_rexpr as rx
@@ -64,7 +65,7 @@ META = {
     'require_counters': {'any': ['exact_value_checked', 'type_mismatch_13_seen', 'missing_operand_22_seen',
                                  'grouping_sensitive_pairs', 'unary_after_binary_texts', 'chained_relational_texts',
                                  'typing_checked', 'parens_dropped_texts', 'spelling_variants_agree',
-                                 'inner_blank_relational_texts', 'recased_word_operator_texts']},
+                                 'inner_blank_relational_texts', 'recased_word_operator_texts', 'half_operand_values_checked']},
     'timeout': {'quick': 900, 'thorough': 10800},
 }
 
@@ -120,9 +121,14 @@ class Ctx(object):
         handler.handle = counting_handle
 
     def set_pool(self, pool):
-        for name, (ty, pyval, _) in sorted(pool.items()):
+        for name, (ty, pyval, model) in sorted(pool.items()):
             n = name if name[-1] in '%!#$' else name + '!'
             self.box.set(n, pyval)
+            if ty != '$':
+                # the variable must hold exactly the model value (otherwise the harness, not the interpreter, is off)
+                got = self.evalx(n.encode('latin-1'))
+                if got[0] != 'ok' or rnum.decode(got[2]) != Fraction(model):
+                    raise AssertionError('pool variable %s holds %r, wanted %s' % (n, got, model))
         self.pool_sig = repr(sorted((k, v[2]) for k, v in pool.items())).encode()
 
     def evalx(self, text):
@@ -192,6 +198,29 @@ def _grouping_key(ctx, t):
     kc = sorted(set(rx.node_class(c) for c in kids)) or ['leaf']
     # all smaller subtrees agree, so the disagreement is between this operator and an operator directly below it
     return 'grouping:%s-over-%s' % (rx.node_class(best), kc[0] if len(kc) == 1 else 'several'), best
+
+
+def _value_key(ctx, t):
+    """Mechanism key of a wrong value: the smallest subtree that is already wrong, and why if that can be told."""
+    for s_ in sorted(rx.subtrees(t), key=rx.size):
+        if s_[0] in ('L', 'V'):
+            continue
+        try:
+            want = rx.eval_exact(s_)
+            got = ctx.evalx(rx.to_text(rx.print_full(s_)))
+        except (rx.Unsafe, rx.TypeMismatch, ctx.harness.Internal):
+            continue
+        if got[0] != 'ok' or (got[2] != want if isinstance(want, bytes) else rnum.decode(got[2]) != want):
+            if (s_[0] == 'U' and s_[1] == 'NOT') or (s_[0] == 'B' and (s_[1] in rx.LOGICAL or s_[1] in ('\\', 'MOD'))):
+                for c in s_[2:]:
+                    try:
+                        v = rx.eval_exact(c)
+                    except (rx.Unsafe, rx.TypeMismatch):
+                        continue
+                    if not isinstance(v, bytes) and v.denominator != 1:
+                        return 'value:integer-operator-rounds-its-operand-wrongly'
+            return 'value:%s' % rx.node_class(s_)
+    return 'value:%s' % rx.node_class(t)
 
 
 def check_tree(ctx, t, name=None, spacing=True, redundant=True, judge=True):
@@ -335,7 +364,7 @@ def check_tree(ctx, t, name=None, spacing=True, redundant=True, judge=True):
         else:
             ok = rnum.decode(raw) == exact
         if not ok:
-            res.violation('value:%s' % rx.node_class(t), '%r evaluates to %r, exact value of its tree is %s'
+            res.violation(_value_key(ctx, t), '%r evaluates to %r, exact value of its tree is %s'
                           % (text_min, ra, exact), case)
     return ra
 
@@ -432,6 +461,18 @@ def _typing(ctx):
                     check_tree(c2, t, name=list(name) + ['double=True'], spacing=False, redundant=False)
     res.sample({'typing_table': 'every operator x every operand type pair', 'entries': len(list(tg.typing_table()))})
     _spelling_table(ctx)
+    # operands of the integer-converting operators at exact halves and their neighbours
+    ctx.set_pool(tg.halves_pool())
+    nh = 0
+    for name, t in tg.halves_table():
+        r = check_tree(ctx, t, name=list(name), spacing=False, redundant=False)
+        nh += 1
+        try:
+            rx.eval_exact(t)
+            res.count('half_operand_values_checked')
+        except (rx.Unsafe, rx.TypeMismatch):
+            pass
+    res.sample({'halves_table': 'integer-converting operators x exact halves / neighbours x literal, computed, variable', 'entries': nh})
     # directed missing-operand texts (seed-independent)
     for text, allowed in DIRECTED_MISSING:
         for via_print in (False, True):
